@@ -167,8 +167,26 @@ func rotationProjects(c *core.Ctx, n int) []*gen.Project {
 		combo := (i + int(c.Seed)) % 16
 		o := gen.Opts{Years: 2 + r.Intn(2), MinLayers: 6, MaxLayers: 20, Crops: []string{"SM", "SOY", "SW", "OA", "ZR", "K"}, ETMethods: []int{3, 2}, DateFormats: []int{1, 3},
 			Drought: i%4 == 1, HeavyRain: i%4 == 2}
+		narrowNext := i%16 == 11
+		if narrowNext {
+			o.Years = 3
+		}
 		p := gen.Random(r, fmt.Sprintf("r%d_%d", c.Seed, i), o)
 		p.Cfg.AutoSow, p.Cfg.AutoHarv, p.Cfg.AutoIrr, p.Cfg.AutoFert = combo&1, (combo>>1)&1, (combo>>2)&1, (combo>>3)&1
+		if narrowNext {
+			// arm "narrowNext": maize is taken off at its latest harvest date (1 August, long before it is ripe); the sowing
+			// window of the winter rye after it opens the next day and is three days wide (in the domain: it opens after
+			// the latest harvest date of the preceding crop). Organic fertiliser at harvest (i%4 == 3, below).
+			y, _, _ := gen.YMD(p.Rotation[0].Harv)
+			if gen.DayNum(y+2, 7, 25) < p.Cfg.End-5 {
+				p.Cfg.AutoSow, p.Cfg.AutoHarv = 1, 1
+				p.Rotation = append(p.Rotation[:1],
+					gen.RotEntry{Crop: "SM", Sow: gen.DayNum(y+1, 5, 1), Harv: gen.DayNum(y+1, 8, 1), RexPct: 50},
+					gen.RotEntry{Crop: "WR", Sow: gen.DayNum(y+1, 8, 3), Harv: gen.DayNum(y+2, 7, 20), RexPct: 50})
+			} else {
+				narrowNext = false
+			}
+		}
 		p.Irrig = 1
 		// spring crops only: window 15.3.-15.5. (+- random), latest harvest 31.10.: always after the preceding latest harvest
 		var rows []gen.AutoRow
@@ -202,6 +220,14 @@ func rotationProjects(c *core.Ctx, n int) []*gen.Project {
 			if i%5 == 0 {
 				row.Sow1M, row.Sow1D, row.Sow2M, row.Sow2D = 0, 0, 0, 0 // fixed sowing date from the rotation file
 			}
+			if narrowNext {
+				if e.Crop == "SM" {
+					row.Sow1M, row.Sow1D, row.Sow2M, row.Sow2D, row.Har2M, row.Har2D = 4, 20, 5, 10, 8, 1
+				} else if e.Crop == "WR" {
+					row = gen.DefaultAutoRow("WR")
+					row.Sow1M, row.Sow1D, row.Sow2M, row.Sow2D, row.Har2M, row.Har2D = 8, 2, 8, 4, 7, 31
+				}
+			}
 			// organic fertiliser of the automatic-management table: at harvest (H) or at sowing (S), a few days later
 			if i%4 == 3 || i%7 == 5 {
 				row.OrgF, row.OrgAmount, row.OrgDoy = []string{"RM", "RG", "SG"}[r.Intn(3)], 50+r.Intn(150), r.Intn(20)
@@ -219,7 +245,7 @@ func rotationProjects(c *core.Ctx, n int) []*gen.Project {
 				p.Rotation[k].AutOrg = 1
 			}
 		}
-		for k := 1; k < len(p.Rotation); k++ {
+		for k := 1; k < len(p.Rotation) && !narrowNext; k++ {
 			y, _, _ := gen.YMD(p.Rotation[k].Sow)
 			p.Rotation[k].Sow = gen.DayNum(y, 4, 1+r.Intn(25))
 			p.Rotation[k].Harv = gen.DayNum(y, 9, 1+r.Intn(28))
@@ -291,7 +317,7 @@ func rotationProjects(c *core.Ctx, n int) []*gen.Project {
 		}
 		// no fixed-date tillage between sowing and (latest) harvest
 		p.Till, p.Fert, p.Irr = nil, nil, nil
-		p.Arms = []string{fmt.Sprintf("autoSow=%d autoHarv=%d autoIrr=%d autoFert=%d crops=%d autorg=%d/%s irrmax0=%v earlyLatest=%v lateRot=%v fileExt=%q tight=%v", p.Cfg.AutoSow, p.Cfg.AutoHarv, p.Cfg.AutoIrr, p.Cfg.AutoFert, len(p.Rotation)-1, p.Rotation[0].AutOrg, rows[0].OrgTime, p.Cfg.AutoIrr == 1 && (o.Drought || i%3 == 0), earlyLatest, lateRot, p.FileExt, tight)}
+		p.Arms = []string{fmt.Sprintf("autoSow=%d autoHarv=%d autoIrr=%d autoFert=%d crops=%d autorg=%d/%s irrmax0=%v earlyLatest=%v lateRot=%v fileExt=%q tight=%v narrowNext=%v", p.Cfg.AutoSow, p.Cfg.AutoHarv, p.Cfg.AutoIrr, p.Cfg.AutoFert, len(p.Rotation)-1, p.Rotation[0].AutOrg, rows[0].OrgTime, p.Cfg.AutoIrr == 1 && (o.Drought || i%3 == 0), earlyLatest, lateRot, p.FileExt, tight, narrowNext)}
 		ps = append(ps, p)
 	}
 	return ps
